@@ -9,7 +9,7 @@ EXTENDS Integers, Sequences, FiniteSets, TLC, Json, SequencesExt
 Kinds == {"private", "alias", "function", "builtin", "external"}
 Order == <<"private", "alias", "function", "builtin", "external">>
 AliasTargets == {"out", "self", "other"}    \* alias NAME=out ..., alias NAME=NAME, alias NAME=OTHER
-OtherKinds == {"alias", "function", "external"}
+OtherKinds == {"private", "alias", "function", "external"}
 
 \* first kind of Order that is in S (without expanding aliases)
 RECURSIVE FirstOf(_, _)
